@@ -237,7 +237,14 @@ class Rec(AbstractValue):
         self.log.append((self.name + '.' + name, list(args), dict(kwargs)))
         if isinstance(self.result, dict):
             return self.result.get(name)
+        if self.name == 'file' and name in ('read', 'readlines', 'readline'):
+            return Rec('%s.%s()' % (self.name, name), self.log)       # what was read, followed further
+        if self.name.startswith('file.') and name in ('split', 'splitlines', 'strip', 'rstrip', 'lstrip', 'replace', 'expandtabs'):
+            return Rec('%s.%s(%s)' % (self.name, name, ', '.join(repr(a) for a in args)), self.log)
         return None
+
+    def __repr__(self):
+        return '<%s>' % self.name
 
     def abs_enter(self, interp):
         self.log.append((self.name + '.__enter__', [], {}))
@@ -389,12 +396,15 @@ def rule_cli(ctx, rep):
     it.intrinsics['builtins.print'] = lambda interp, args, kwargs: log.append(('print', list(args), dict(kwargs))) or None
     it.intrinsics['sys.stdout.write'] = lambda interp, args, kwargs: log.append(('text-write', list(args), dict(kwargs))) or None
     R = object()
-    it.call_function(cf, ['x.md', R], {})
+    problems = []
+    try:
+        it.call_function(cf, ['x.md', R], {})
+    except Raised as e:
+        problems.append('raises %s %s' % (e.exc.kind, e.exc.args))
     opens = [x for x in log if x[0] == 'open']
     mds = [x for x in log if x[0] == 'markdown']
     writes = [x for x in log if x[0] in ('write', 'print', 'text-write')]
     encs = [x for x in log if x[0] == 'rendered.encode']
-    problems = []
     if not (len(opens) == 1 and opens[0][1][:1] == ['x.md'] and (opens[0][1][1:2] in ([], ['r']))
             and opens[0][2].get('encoding', '').lower().replace('_', '-') in ('utf-8', 'utf8')
             and not (set(opens[0][2]) - {'encoding', 'mode'}) and opens[0][2].get('mode', 'r') == 'r'):
